@@ -56,7 +56,7 @@ class Contract:
             raise TypeError(f"unknown contract fields for {key}: {sorted(kw)}")
 
 
-TRACE_FNS = ("call_arg(", "called(", "call_result(", "called_before(", "last_call_is(", "ncalled(", "caught(", "last_result_truthy(")
+TRACE_FNS = ("call_arg(", "called(", "call_result(", "called_before(", "last_call_is(", "ncalled(", "caught(", "last_result_truthy(", "AllFileStepsOn(", "nfilesteps(")
 
 
 def _is_trace(text):
